@@ -241,6 +241,10 @@ func (ch c18) runCase(c *core.Ctx, env *hs.Env, L int, rng *core.Rng, idx int) {
 	text := func(tag string, n int) string {
 		b := bytes.Repeat([]byte{byte('a' + rng.Intn(26))}, n)
 		copy(b, tag)
+		if rng.Intn(3) == 0 && n > len(tag)+12 {
+			// line breaks, tabs and non-ASCII text right behind the tag (within the first bytes of the message)
+			copy(b[len(tag):], core.Pick(rng, []string{"\n\tSEL", "\r\n", " na\xc3\xafve ", "\x01\x1b[0m", "\t\t"}))
+		}
 		return string(b)
 	}
 	nmsg := 5 + rng.Intn(60)
